@@ -131,6 +131,10 @@ def energy_from_tof(*, tof: Variable, Ltotal: Variable) -> Variable:
         Has unit meV.
     """
     c = _energy_constant(sc.units.meV, tof, Ltotal)
+    # Square in floating point: integers would overflow (or, for int32, not
+    # support the power at all).
+    tof = as_float_type(tof, tof)
+    Ltotal = as_float_type(Ltotal, Ltotal)
     return as_float_type(c * Ltotal**2, tof) / tof ** sc.scalar(
         2, dtype=elem_dtype(tof)
     )
@@ -188,7 +192,7 @@ def energy_transfer_direct_from_tof(
     t0 = _energy_transfer_t0(incident_energy, tof, L1)
     c = _energy_constant(elem_unit(incident_energy), tof, L2)
     dtype = _common_dtype(incident_energy, tof)
-    scale = (c * L2**2).astype(dtype, copy=False)
+    scale = (c * as_float_type(L2, L2) ** 2).astype(dtype, copy=False)
     delta_tof = tof - t0
     return sc.where(
         delta_tof <= sc.scalar(0, unit=elem_unit(delta_tof)),
@@ -242,7 +246,7 @@ def energy_transfer_indirect_from_tof(
     t0 = _energy_transfer_t0(final_energy, tof, L2)
     c = _energy_constant(elem_unit(final_energy), tof, L1)
     dtype = _common_dtype(final_energy, tof)
-    scale = (c * L1**2).astype(dtype, copy=False)
+    scale = (c * as_float_type(L1, L1) ** 2).astype(dtype, copy=False)
     delta_tof = -t0 + tof  # Order chosen such that output.dims = ['spectrum', 'tof']
     return sc.where(
         delta_tof <= sc.scalar(0, unit=elem_unit(delta_tof)),
@@ -279,7 +283,7 @@ def energy_from_wavelength(*, wavelength: Variable) -> Variable:
         ),
         wavelength,
     )
-    return c / wavelength**2
+    return c / as_float_type(wavelength, wavelength) ** 2
 
 
 def wavelength_from_energy(*, energy: Variable) -> Variable:
